@@ -100,4 +100,87 @@ example : idOf (finishSorted witnessUses id 4 witnessStart) "a" ("Box", "[]int")
         = idOf (finishSorted witnessUses List.reverse 4 witnessStart) "a" ("Box", "[]int") := by
   rw [finish_sorted_order_independent witnessUses List.reverse (fun ks => List.reverse_perm ks)]
 
+/-! ### several projects in one build session (build/build.go `Session.BuildProject`)
+
+  `UpToDateArchives` (and the parsed `sources`) are filled while a project is compiled; an archive is compiled for ONE
+  project — its whole-program context `ctx` (set of generic instances, type context, analysis facts) is an input of
+  `compile`. The repaired `BuildProject` starts every project from empty maps. -/
+
+section Session
+variable {Ctx A K : Type} [DecidableEq K] (compile : Ctx → K → A)
+
+/-- `compilePackage` over the sorted sources of a project: an archive already in the map is reused, otherwise compiled
+    in the context of the CURRENT project and remembered. -/
+def compilePkgs (ctx : Ctx) : List K → List (K × A) → List (K × A)
+  | [], c => c
+  | p :: ps, c =>
+    match List.lookup p c with
+    | some _ => compilePkgs ctx ps c
+    | none => compilePkgs ctx ps ((p, compile ctx p) :: c)
+
+/-- the code before the repair: the session's archive map is carried from project to project -/
+def buildOld (archives : List (K × A)) (proj : Ctx × List K) : List (K × A) × List (Option A) :=
+  let c := compilePkgs compile proj.1 proj.2 archives
+  (c, proj.2.map (fun p => List.lookup p c))
+
+/-- the repaired code: `s.UpToDateArchives = make(...)` first -/
+def buildNew (_archives : List (K × A)) (proj : Ctx × List K) : List (K × A) × List (Option A) :=
+  buildOld compile [] proj
+
+/-- the archive map after a sequence of projects -/
+def runNew (archives : List (K × A)) : List (Ctx × List K) → List (K × A)
+  | [] => archives
+  | p :: ps => runNew (buildNew compile archives p).1 ps
+
+theorem compilePkgs_lookup (ctx : Ctx) (ps : List K) (c : List (K × A)) (q : K) :
+    List.lookup q (compilePkgs compile ctx ps c) =
+      match List.lookup q c with
+      | some a => some a
+      | none => if q ∈ ps then some (compile ctx q) else none := by
+  induction ps generalizing c with
+  | nil => simp only [compilePkgs]; cases List.lookup q c <;> simp
+  | cons p ps ih =>
+    simp only [compilePkgs]
+    cases hp : List.lookup p c with
+    | some a =>
+      simp only [ih]
+      cases hq : List.lookup q c with
+      | some b => rfl
+      | none =>
+        have hne : q ≠ p := by intro h; rw [h, hp] at hq; cases hq
+        simp [hne]
+    | none =>
+      simp only [ih, List.lookup_cons]
+      by_cases hqp : q = p
+      · subst hqp; simp [hp]
+      · have : (q == p) = false := by simpa using hqp
+        simp only [this]
+        cases List.lookup q c <;> simp [hqp]
+
+/-- **session_independent** — the archives a project is linked from do not depend on the projects built earlier in the
+    same session (any number, any contents). -/
+theorem session_independent (earlier : List (Ctx × List K)) (start : List (K × A)) (proj : Ctx × List K) :
+    (buildNew compile (runNew compile start earlier) proj).2 = (buildNew compile [] proj).2 := rfl
+
+/-- **session_project_context** — and every package of the project is compiled in the project's OWN context. -/
+theorem session_project_context (archives : List (K × A)) (proj : Ctx × List K) :
+    (buildNew compile archives proj).2 = proj.2.map (fun p => some (compile proj.1 p)) := by
+  unfold buildNew buildOld
+  apply List.map_congr_left
+  intro p hp
+  rw [compilePkgs_lookup]
+  simp [hp]
+
+end Session
+
+/-- the defect that was repaired: with the carried map the second project gets the archive compiled for the first one's
+    context (witness: `lib` shared by two commands that instantiate its generics differently) -/
+theorem old_session_counterexample :
+    -- packages: 0 = lib, 1 = cmda, 2 = cmdb; contexts: 10 = {Box[int]}, 20 = {Box[string]}; archive = (package, context)
+    let compile : Nat → Nat → Nat × Nat := fun ctx p => (p, ctx)
+    let a := buildOld compile [] (10, [1, 0])
+    (buildOld compile a.1 (20, [2, 0])).2 = [some (2, 20), some (0, 10)] ∧
+    (buildNew compile a.1 (20, [2, 0])).2 = [some (2, 20), some (0, 20)] := by
+  decide
+
 end GV.Props.C17
